@@ -178,7 +178,23 @@ def r3(ctx, cfg):
     # result converted without dropping the error: flows into the returned SystemResult::Ok(contract_result)
     ret = P.ret(f)
     # the payload is the router's result converted with Into (value-preserving), nothing else in between
-    ok = contains(ret, lambda x: x[0] == "agg" and x[1].endswith("SystemResult::Ok") and peel(x[2][0][1])[0] == "call" and peel(x[2][0][1])[1] == "app::CosmosRouter::query")
+    def is_q(x):
+        x = peel(x)
+        return x[0] == "call" and x[1] == "app::CosmosRouter::query"
+
+    def converted(pl):
+        """the router's Result turned into a ContractResult: by `.into()` (value-preserving) or by the match it abbreviates -
+        Ok(b) => ContractResult::Ok(b), Err(e) => ContractResult::Err(e.to_string())"""
+        pl = peel(pl)
+        if is_q(pl):
+            return True
+        xs = alts(pl)
+        oks = [x for x in xs if x[0] == "agg" and x[1].endswith("ContractResult::Ok") and peel(x[2][0][1])[0] == "ok" and is_q(peel(x[2][0][1])[1])]
+        ers = [x for x in xs if x[0] == "agg" and x[1].endswith("ContractResult::Err") and
+               contains(x[2][0][1], lambda y: y[0] == "err" and is_q(y[1])) and
+               contains(x[2][0][1], lambda y: (y[0] == "call" and y[1].endswith("to_string")) or (y[0] == "vp" and y[1] == "to_string"))]
+        return len(xs) == 2 and len(oks) == 1 and len(ers) == 1
+    ok = contains(ret, lambda x: x[0] == "agg" and x[1].endswith("SystemResult::Ok") and converted(x[2][0][1]))
     ctx.ob(R, key, "module-answer-or-error-is-what-the-caller-sees", ok, "raw_query returns %s" % fmt(ret)[:200], fn=f,
            sample="SystemResult::Ok(router.query(..).into())")
     ctx.ob(R, key, "no-dropped-result", not dropped_results(f), "a result is dropped in raw_query", fn=f, sample="none")
@@ -289,6 +305,19 @@ def r4(ctx, cfg):
             r0 = r0[2]
         # `.data = resp.data` may come before or after the builder calls: anywhere in the chain that makes up the result
         data = contains(ret, lambda x: x[0] == "upd" and any(p == ("data",) and is_param_field(v, "resp", "data") for p, v in x[2]))
+        if not data:
+            # `resp.data.into_iter().fold(out, Response::set_data)` / `if let Some(d) = resp.data { out = out.set_data(d) }`: the
+            # payload of resp.data (when there is one) goes through set_data; a fresh Response has no data otherwise
+            def payload_of_resp_data(v):
+                v = peel(v)
+                return (v[0] == "bound" and v[1] == "elem" and is_param_field(strip_adapters(v[2]), "resp", "data")) or \
+                    (v[0] == "some" and is_param_field(v[1], "resp", "data"))
+            data = contains(ret, lambda x: x[0] == "call" and x[1].endswith("Response::set_data") and len(x[2]) == 2 and payload_of_resp_data(x[2][1]))
+            # (with the library function passed by path the fold stays a call: fold(resp.data.into_iter(), out, Response::set_data))
+            r1 = peel(ret)
+            if not data and r1[0] == "call" and r1[1] == "std::iter::Iterator::fold" and len(r1[2]) == 3:
+                f2 = peel(r1[2][2])
+                data = is_param_field(strip_adapters(r1[2][0]), "resp", "data") and f2[0] == "fn" and f2[1].endswith("Response::set_data")
         for name, ok in (("messages(through customize_msg)", msgs), ("events", evs), ("attributes", attrs), ("data", data)):
             ctx.ob(R, key, "carries-%s" % name, ok, "customize_response does not carry %s: %s" % (name, fmt(ret)[:200]), fn=f, sample=name)
 
@@ -316,7 +345,11 @@ def _returns(P, f):
                     kinds.append(("call:" + c["key"], bid))
         else:
             o = peel(P.rvalue(f, item["rv"], (bid, i)))
-            if o[0] == "agg" and o[1].endswith("Result::Err"):
+            if o[0] == "call" and o[1].endswith("FromResidual::from_residual"):
+                kinds.append(("propagate", bid))      # `Err(e) => Err(e.into())` is `?`
+            elif o[0] == "agg" and o[1].endswith("Result::Err") and contains(o, lambda x: x[0] == "err" and peel(x[1])[0] == "call"):
+                kinds.append(("propagate", bid))      # `Err(e) => Err(e)`: the callee's error handed on
+            elif o[0] == "agg" and o[1].endswith("Result::Err"):
                 kinds.append(("Err", bid))
             elif o[0] == "agg" and o[1].endswith("Result::Ok"):
                 kinds.append(("Ok", bid))
